@@ -1,2 +1,16 @@
-(* C19 -- statement file *)
-From SV Require Import Sess.Model.
+(* C19 -- sessions are isolated (the part a pure model can state; see Sess/Isolation.v). *)
+From Coq Require Import ZArith List Bool.
+From SV Require Import Base.Py Msg.Types Sess.Model Sess.Isolation.
+Import ListNotations.
+
+(* Any interleaving of the call sequences of two sessions gives each session exactly the outcomes,
+   the final state and (inside the state) the pending bytes it gets when run alone.  In the model this
+   holds by construction; the property's content -- no state shared between Python objects, custom
+   type registration per session -- is decided by the interleaved-vs-alone experiment of the check. *)
+Theorem C19_model_sessions_do_not_interact :
+  forall d sched a b,
+  let '(a', b', os) := run_pair d a b sched in
+  run d a (side true sched) = (a', side true os) /\ run d b (side false sched) = (b', side false os).
+Proof. exact interleaving_is_unobservable. Qed.
+
+Print Assumptions C19_model_sessions_do_not_interact.
